@@ -1,9 +1,10 @@
 #!/usr/bin/env python3
-"""seedimport.py <Cxx> <i>: copy a sub-agent's deliverable from /tmp/wt/<Cxx>-out/<i> into /verif/seeded/<Cxx>-<i>/"""
+"""seedimport.py <Cxx> <i> [<j>]: copy a sub-agent's deliverable from /tmp/wt/<Cxx>-out/<i> into /verif/seeded/<Cxx>-<j>/ (j defaults to i)"""
 import sys, os, re, shutil, glob
 c, i = sys.argv[1], sys.argv[2]
+j = sys.argv[3] if len(sys.argv) > 3 else i
 src = f"/tmp/wt/{c}-out/{i}"
-dst = f"/verif/seeded/{c}-{i}"
+dst = f"/verif/seeded/{c}-{j}"
 os.makedirs(dst, exist_ok=True)
 shutil.copy(f"{src}/patch.diff", f"{dst}/patch.diff")
 if os.path.exists(f"{src}/notes.md"):
